@@ -44,6 +44,9 @@ type propCfg struct {
 func d(s string) time.Duration { x, _ := time.ParseDuration(s); return x }
 
 var props = map[string]propCfg{
+	"C17": {Level: "exploration",
+		Quick: tierCfg{Checks: 1500, Shards: 4, Timeout: d("10m"), ShrinkTime: d("30s")},
+		Thor:  tierCfg{Checks: 20000, Shards: 12, Timeout: d("40m"), ShrinkTime: d("120s")}},
 	"C20": {Level: "fault_enumeration",
 		Quick: tierCfg{Checks: 600, Shards: 2, Timeout: d("10m"), ShrinkTime: d("30s")},
 		Thor:  tierCfg{Checks: 6000, Shards: 12, Timeout: d("40m"), ShrinkTime: d("120s")}},
